@@ -241,22 +241,30 @@ def check_C04(tier, seed):
     # per hint, independent of the data: a statically derived candidate contains every value of a probe universe that satisfies the static filters
     ji, jo = [], []
     for inst, o in zip(insts, obs):
-        hs = [{"vid": h["vid"], "prop": h["prop"], "cand": h["cand"]} for h in o.get("prune", {}).get("hints", []) if h.get("kind") == "static" and h["cand"].get("t") != "unknown"]
+        hs = [{"kind": h["kind"], "vid": h["vid"], "prop": h["prop"], "cand": h["cand"], "src": h.get("src", 0), "eid": int(h["site"].split(":")[1]) if h["site"].startswith("nbrs:") else 0}
+              for h in o.get("prune", {}).get("hints", []) if h.get("kind") in ("static", "dynamic") and h["cand"].get("t") != "unknown"]
         seen_h = set(); uniq = []
         for h in hs:
             k = json.dumps(h, sort_keys=True)
             if k not in seen_h: seen_h.add(k); uniq.append(h)
         if uniq and "ir" in o and '"float"' not in json.dumps(o.get("args", {})):
-            ji.append({"id": inst["id"], "g": inst["g"]}); jo.append({"id": inst["id"], "ir": o["ir"], "args": o.get("args", {}), "hints": uniq})
+            ji.append({"id": inst["id"], "g": inst["g"], "schema": inst["schema"]}); jo.append({"id": inst["id"], "ir": o["ir"], "args": o.get("args", {}), "hints": uniq})
     hv = judge(res, "JudgeHints", ji, jo, wd, "hints") if ji else {}
     byid = {i["id"]: i for i in insts}; nh = 0
+    byobs = {i["id"]: o for i, o in zip(insts, obs)}
     for x, o in zip(ji, jo):
         nh += len(o["hints"]); v = hv[x["id"]]
         if "hint.unsound" in v:
             d = json.loads(tla_unquote(v["hint.unsound"])); inst = byid[x["id"]]
-            res.violation(f"the statically required candidate {d['hint']['cand']} reported for property {d['hint']['prop']!r} of vertex {d['hint']['vid']} excludes the value {G.pretty(d['excluded'])}, which satisfies every static filter on that property, in query {inst['text']!r} args {{{', '.join(k + '=' + G.pretty(a) for k, a in o['args'].items())}}}",
-                          text="static-hint-unsound", tags=props.inst_tags(inst), replay=props.replay_case(inst, None, hint=d["hint"], excluded=d["excluded"], args=o["args"]))
-    res.notes["static_hints_judged_for_soundness"] = nh
+            tg = set(props.inst_tags(inst))
+            if d["hint"]["kind"] == "dynamic":
+                # known finding D11: the candidate for `>= %tag` is upper-bounded by the tag (or what remains of that after intersecting other filters)
+                ge = {p["name"] for node, *_ in props.scopes(inst["q"]) for p in node["props"] for f in p["filters"] if f["op"] == ">=" and f["arg"]["k"] == "tag"}
+                c = d["hint"]["cand"]
+                if d["hint"]["prop"] in ge and ((c.get("t") == "range" and c["hi"]["t"] in ("inc", "exc")) or c.get("t") in ("single", "multiple", "impossible")): tg.add("ge_tag_dynamic_hint_excludes_value")
+            res.violation(f"the {d['hint']['kind']}ally required candidate {d['hint']['cand']} reported for property {d['hint']['prop']!r} of vertex {d['hint']['vid']} excludes the value {G.pretty(d['excluded'])}, which satisfies every filter on that property (tag values taken from the source vertex {d['hint'].get('src')}), in query {inst['text']!r} args {{{', '.join(k + '=' + G.pretty(a) for k, a in o['args'].items())}}}",
+                          text="pruned-mismatch" if d["hint"]["kind"] == "dynamic" else "static-hint-unsound", tags=tg, replay=props.replay_case(inst, None, hint=d["hint"], excluded=d["excluded"], args=o["args"]))
+    res.notes["hints_judged_for_soundness"] = nh
     return res
 
 # ------------------------------------------------------------------ C05 / C21
